@@ -1190,3 +1190,88 @@ func withFuncValues(fn *ssa.Function) []*ssa.Function {
 	}
 	return out
 }
+
+
+// structLiteralFields: v is a struct value built by a composite literal — here, or as the single result of a same-package
+// constructor (its parameters replaced by the call's argument terms). Returns field name → term of the value the field
+// gets; fields the literal does not name get the zero value of their type ("nil", "0", "false", "zero"). nil if v is not
+// such a value.
+func structLiteralFields(v ssa.Value, depth int) map[string]string {
+	if depth > 2 {
+		return nil
+	}
+	switch x := v.(type) {
+	case *ssa.UnOp:
+		a, ok := x.X.(*ssa.Alloc)
+		if !ok || x.Op != token.MUL {
+			return nil
+		}
+		stt, ok := types.Unalias(a.Type().(*types.Pointer).Elem()).Underlying().(*types.Struct)
+		if !ok || a.Referrers() == nil {
+			return nil
+		}
+		out := map[string]string{}
+		for i := 0; i < stt.NumFields(); i++ {
+			switch u := stt.Field(i).Type().Underlying().(type) {
+			case *types.Pointer, *types.Interface, *types.Slice, *types.Map, *types.Chan, *types.Signature:
+				out[stt.Field(i).Name()] = "nil"
+			case *types.Basic:
+				if u.Info()&types.IsBoolean != 0 {
+					out[stt.Field(i).Name()] = "false"
+				} else if u.Info()&types.IsNumeric != 0 {
+					out[stt.Field(i).Name()] = "0"
+				} else {
+					out[stt.Field(i).Name()] = "zero"
+				}
+			default:
+				out[stt.Field(i).Name()] = "zero"
+			}
+		}
+		for _, r := range *a.Referrers() {
+			switch y := r.(type) {
+			case *ssa.FieldAddr:
+				if y.Referrers() == nil {
+					continue
+				}
+				for _, rr := range *y.Referrers() {
+					if st, ok := rr.(*ssa.Store); ok && st.Addr == ssa.Value(y) {
+						out[stt.Field(y.Field).Name()] = termP(st.Val)
+					}
+				}
+			case *ssa.UnOp, *ssa.DebugRef:
+			case *ssa.Store:
+				if y.Addr == ssa.Value(a) {
+					return nil // copied from another value, not a literal
+				}
+			default:
+				return nil
+			}
+		}
+		return out
+	case *ssa.Call:
+		g := x.Call.StaticCallee()
+		if g == nil {
+			return nil
+		}
+		g = canonGeneric(g)
+		if g.Origin() != nil {
+			g = g.Origin()
+		}
+		if len(g.Blocks) == 0 || x.Parent() == nil || pkgRelOf(g) != pkgRelOf(x.Parent()) {
+			return nil
+		}
+		rets := returnsOf(g)
+		if len(rets) != 1 || len(rets[0].Results) != 1 {
+			return nil
+		}
+		lf := structLiteralFields(rets[0].Results[0], depth+1)
+		for k, t := range lf {
+			for i := len(x.Call.Args) - 1; i >= 0; i-- {
+				t = strings.ReplaceAll(t, fmt.Sprintf("$%d", i), term(x.Call.Args[i]))
+			}
+			lf[k] = t
+		}
+		return lf
+	}
+	return nil
+}
